@@ -153,4 +153,199 @@ theorem state_updates_are_diff (t : Track) (hn : NodesNodup t.nodes)
     (t.db.commit (toStateUpdates t).2).get (n, p) k = eff t n p k := by
   rw [state_updates_meaning t hn hs hd, effCommit_eq_eff t hc]
 
+/-! ### drain -/
+
+/-- `drain_spec`: a limited drain returns the first `limit` present entries (in visiting order:
+tracked ones, then untracked database ones), i.e. `min(limit, #present)` distinct present entries
+with their values, and afterwards exactly those substates are absent; nothing else changes. -/
+theorem drain_spec (t : Track) (h : WF t) (n p limit : Nat) :
+    (drainSubstates t n p limit).2 = (presentEntries t n p).take limit ∧
+    (∀ n' p' k', eff (drainSubstates t n p limit).1 n' p' k'
+      = if n' = n ∧ p' = p ∧ k' ∈ (drainSubstates t n p limit).2.map (·.1) then none
+        else eff t n' p' k') := by
+  obtain ⟨hitems, hdb, _, _, hpart⟩ := drain_nf t n p limit
+  refine ⟨by rw [hitems]; exact drainResult_items t h n p limit, ?_⟩
+  intro n' p' k'
+  rw [eff_part, hpart, hdb, hitems]
+  by_cases hh : n' = n ∧ p' = p
+  · obtain ⟨rfl, rfl⟩ := hh
+    simp only [and_self, if_true, true_and]
+    exact drainResult_get t n' p' limit k'
+  · simp only [hh, if_false]
+    have : ¬ (n' = n ∧ p' = p ∧ k' ∈ (drainResult t n p limit).2.map (·.1)) := fun hx => hh ⟨hx.1, hx.2.1⟩
+    simp only [this, if_false]
+    rw [eff_part]
+
+/-- the entries visited by a drain are exactly the present entries of the partition, with their
+values, each key once -/
+theorem presentEntries_spec (t : Track) (h : WF t) (n p : Nat) :
+    (presentEntries t n p).map (·.1) = presentKeys t n p ∧
+    ∀ k v, (k, v) ∈ presentEntries t n p → eff t n p k = some v := by
+  unfold presentEntries presentKeys presentEntriesT presentTracked
+  refine ⟨?_, ?_⟩
+  · rw [List.map_append]
+    congr 1
+    generalize partOf t.nodes n p = part
+    induction part with
+    | nil => rfl
+    | cons hd rest ih =>
+      obtain ⟨k, tv⟩ := hd
+      simp only [List.filterMap_cons, List.filter_cons]
+      cases tv.get with
+      | none => simpa using ih
+      | some v => simpa using ih
+  · intro k v hm
+    rw [List.mem_append] at hm
+    rw [eff_part]
+    rcases hm with hm | hm
+    · rw [List.mem_filterMap] at hm
+      obtain ⟨x, hx, hxv⟩ := hm
+      obtain ⟨k0, tv⟩ := x
+      cases hg : tv.get with
+      | none => simp only [hg] at hxv; simp at hxv
+      | some v0 =>
+        simp only [hg, Option.some.injEq, Prod.mk.injEq] at hxv
+        obtain ⟨rfl, rfl⟩ := hxv
+        rw [SMap.get?_of_mem _ (h.sorted n p) k0 tv hx]
+        exact hg
+    · unfold untrackedDb at hm
+      rw [List.mem_filter] at hm
+      have hc : SMap.get? (partOf t.nodes n p) k = none := by
+        have := hm.2
+        simp only [SMap.contains, Bool.not_eq_true', Option.isSome_eq_false_iff, Option.isNone_iff_eq_none] at this
+        exact this
+      rw [hc]
+      exact SMap.get?_of_mem _ (h.dbWF (n, p)) k v hm.1
+
+/-! ### the invariants hold along every transaction -/
+
+/-- side conditions of an operation: `create_node` needs a node id that is new (nothing in the
+base database under it) — "Clients must ensure the `node_id` is new and unique" — and revert is
+treated separately (`Coherent` talks about the forward phase of a transaction) -/
+def OpOK (t : Track) : Op → Prop
+  | .create n _ => ∀ p, t.db (n, p) = []
+  | .revert => False
+  | _ => True
+
+theorem step_db (t : Track) (op : Op) (hop : OpOK t op) : (step t op).1.db = t.db := by
+  cases op with
+  | get n p k => exact getTracked_db t n p k
+  | set n p k v => unfold step setSubstate; simp only []; split <;> rfl
+  | remove n p k => exact getTracked_db t n p k
+  | create n subs => rfl
+  | scanKeys n p l =>
+    unfold step scanKeys; simp only []
+    rcases scanTrackedKeys l (trackedOr t n p) with ⟨items, rem⟩
+    simp only []; split <;> rfl
+  | drain n p l => exact (drain_nf t n p l).2.1
+  | scanSorted n p l => rfl
+  | forceWrite n p k =>
+    unfold step forceWrite; simp only []
+    cases lookupTV t n p k <;> rfl
+  | deletePartition n p => rfl
+  | revert => exact hop.elim
+
+/-- `inv_step`: every operation of a transaction (other than the final revert) keeps the
+representation invariant and the coherence of the cache with the base database. -/
+theorem inv_step (t : Track) (op : Op) (hop : OpOK t op) (h : Inv t) : Inv (step t op).1 := by
+  cases op with
+  | get n p k => exact inv_get t n p k h
+  | set n p k v => exact inv_set t n p k v h
+  | remove n p k => exact inv_remove t n p k h
+  | create n subs => exact inv_create t n subs h hop
+  | scanKeys n p l => exact inv_scanKeys t n p l h
+  | drain n p l => exact inv_drain t n p l h
+  | scanSorted n p l => exact inv_scanSorted t n p l h
+  | forceWrite n p k =>
+    simp only [step]
+    cases hf : forceWrite t n p k with
+    | none => exact h
+    | some t' => exact inv_forceWrite t t' n p k h hf
+  | deletePartition n p => exact inv_deletePartition t n p h
+  | revert => exact hop.elim
+
+theorem inv_new (db : Db) (hdb : Db.WF db) : Inv (new db) := by
+  refine ⟨⟨hdb, ?_, ?_⟩, ⟨by simp [new, IMap.Nodup], by simp [new]⟩, ?_⟩
+  · intro n p; simp [new, partOf, SMap.Sorted]
+  · intro n hn; simp [new, isNewIn] at hn
+  · intro n p k tv hg; simp [new, partOf] at hg
+
+/-- admissible op sequences: each op satisfies its side condition in the state it is issued in -/
+def OpsOK (t : Track) : List Op → Prop
+  | [] => True
+  | op :: rest => OpOK t op ∧ OpsOK (step t op).1 rest
+
+theorem inv_run (t : Track) (ops : List Op) (hops : OpsOK t ops) (h : Inv t) :
+    Inv (ops.foldl (fun t op => (step t op).1) t) := by
+  induction ops generalizing t with
+  | nil => exact h
+  | cons op rest ih => exact ih _ hops.2 (inv_step t op hops.1 h)
+
+/-- **C12 (forward phase).** For every sorted base database and every admissible sequence of
+creations, reads, writes, removals, scans, drains and force-writes, the reached track satisfies
+the invariants under which `get/set/remove/create_refines`, `scanKeys_spec`, `drain_spec`,
+`scanSorted_spec` hold, and — when no partition was deleted — applying the final `StateUpdates`
+to the base database yields exactly the overlaid state. -/
+theorem reads_back_own_writes (db : Db) (hdb : Db.WF db) (ops : List Op) (hops : OpsOK (new db) ops) :
+    let t := run db ops
+    WF t ∧ (t.deleted = [] → ∀ n p k, (t.db.commit (toStateUpdates t).2).get (n, p) k = eff t n p k) := by
+  have h := inv_run (new db) ops hops (inv_new db hdb)
+  exact ⟨h.wf, fun hd n p k => state_updates_are_diff _ h.nodup h.wf.sorted hd h.coh n p k⟩
+
+/-- the side conditions only depend on the base database, which no operation changes -/
+theorem opsOK_of_forall (t : Track) (ops : List Op)
+    (h : ∀ op ∈ ops, ∀ t' : Track, t'.db = t.db → OpOK t' op) : OpsOK t ops := by
+  induction ops generalizing t with
+  | nil => trivial
+  | cons op rest ih =>
+    have h1 := h op (List.mem_cons_self ..) t rfl
+    refine ⟨h1, ih _ ?_⟩
+    intro op' hop' t' hdb
+    exact h op' (List.mem_cons_of_mem _ hop') t' (by rw [hdb, step_db t op h1])
+
+example : OpsOK (new (Db.empty.set (0, 0) [(1, 10)]))
+    [.get 0 0 1, .set 0 0 2 5, .create 3 [(0, [(1, 1)])], .remove 0 0 1, .drain 0 0 2, .scanSorted 3 0 1] := by
+  apply opsOK_of_forall
+  intro op hop t' hdb
+  simp only [List.mem_cons, List.not_mem_nil, or_false] at hop
+  rcases hop with rfl | rfl | rfl | rfl | rfl | rfl
+  all_goals first
+    | trivial
+    | (intro p; show t'.db (3, p) = []; rw [hdb]; simp [new, Db.set, Db.empty])
+
+/-! ### revert (partial)
+
+Full statement (not proved here; it is C02's `revert_keeps_only_force_writes`, and is exercised on
+the implementation by the c12 oracle keys `state-updates-not-diff:*` after a `revert` and
+`revert:panic`):
+
+  theorem revert_spec (t t' : Track) (h : Inv t) (hforce : NodesNodup t.force ∧ sorted parts)
+      (hr : revert t = some t') (n p k : Nat) :
+      effCommit t' n p k = match lookupIn t.force n p k with
+        | some ftv => (match ftv.toUpdate with | some u => u | none => t.db.get (n, p) k)
+        | none => t.db.get (n, p) k
+
+What is proved is the per-substate kernel of it: a reverted tracked value carries no write, and
+reads back the base database value except when it was a blind write (`WriteOnly`), which becomes
+`Garbage` and reads as absent. -/
+
+/-- a reverted tracked value never contributes to the final state updates -/
+theorem revert_value_partial (tv : TV) : tv.revertWrites.toUpdate = none := by
+  cases tv <;> rfl
+
+/-- after `revert_writes` a coherent tracked value reads back the base database value, unless it
+was a blind write (`WriteOnly`): that one becomes `Garbage` and reads as absent -/
+theorem revert_read_partial (db : Db) (n p k : Nat) (tv : TV) (h : CohTV db n p k tv)
+    (hw : ∀ w, tv ≠ .writeOnly w) : tv.revertWrites.get = db.get (n, p) k := by
+  cases tv with
+  | new v => exact h.symm
+  | readOnly r => simp only [TV.revertWrites]; rw [← h]; cases r <;> rfl
+  | readExistAndWrite old w => exact h.symm
+  | readNonExistAndWrite v => exact h.symm
+  | writeOnly w => exact absurd rfl (hw w)
+  | garbage => exact h.symm
+
+example : CohTV (Db.empty.set (0, 0) [(1, 10)]) 0 0 1 (.readExistAndWrite 10 (.update 11)) := by
+  simp [CohTV, Db.get, Db.set, Db.empty, SMap.get?]
+
 end Radix.Track
